@@ -416,6 +416,56 @@ def megno_cases(ctx, rebound, ncases):
     return cases
 
 
+# ------------------------------------------------------------------ move_to_com over several variation sets
+def compass_cases(ctx, rebound, ncases):
+    """reb_simulation_move_to_com on real simulations with 2-4 variational configurations (full first-order sets with and
+    without mass variations, test-particle sets, second-order sets) in every order; system not in its COM frame.
+    Compared: every component of every configuration that the first-order pass touches or must leave alone."""
+    rng = ctx.rng
+    cases = []
+    comps = ["x", "y", "z", "vx", "vy", "vz"]
+    for k in range(ncases):
+        n = rng.choice([2, 3, 4])
+        sim = rebound.Simulation()
+        for i in range(n):
+            sim.add(m=rng.uniform(0.1, 2) if i == 0 else rng.choice([0.0, 10 ** rng.uniform(-4, -1)]),
+                    x=rng.gauss(0, 2), y=rng.gauss(0, 2), z=rng.gauss(0, 1), vx=rng.gauss(0, 1), vy=rng.gauss(0, 1), vz=rng.gauss(0, .3))
+        cfgs, firsts = [], []
+        for v in range(rng.choice([2, 2, 3, 4])):
+            kind = rng.choice(["full", "full", "full", "tp", "second"]) if firsts else rng.choice(["full", "full", "tp"])
+            if kind == "full":
+                var = sim.add_variation(); firsts.append(var)
+            elif kind == "tp":
+                var = sim.add_variation(testparticle=rng.randrange(n))
+            else:
+                var = sim.add_variation(order=2, first_order=firsts[0], first_order_2=rng.choice(firsts))
+            massvar = rng.random() < 0.6
+            for p in var.particles:
+                p.m = rng.gauss(0, 1) if massvar else 0.0
+                for c in comps:
+                    setattr(p, c, rng.gauss(0, 1) * 10 ** rng.uniform(-2, 2))
+            cfgs.append((kind, var))
+        ms = [sim.particles[i].m for i in range(n)]
+        real = {c: [getattr(sim.particles[i], c) for i in range(n)] for c in comps}
+        before = [{c: [(p.m, getattr(p, c)) for p in var.particles] for c in comps} for _, var in cfgs]
+        sim.move_to_com()
+        c = rng.choice(comps)
+        items, exp = [], []
+        for (kind, var), bf in zip(cfgs, before):
+            after = [getattr(p, c) for p in var.particles]
+            if kind == "full":
+                items.append("(true, [%s])" % "; ".join(vlib.flist([ms[i], real[c][i], bf[c][i][0], bf[c][i][1]]) for i in range(n)))
+            elif kind == "tp":
+                items.append("(false, [%s])" % vlib.flist([bf[c][0][1]]))     # must be left alone
+            else:
+                items.append("(false, [%s])" % vlib.flist(after))            # handled by the second-order pass (C20)
+            exp += after
+        term = "(runComPass %s %s [%s])" % (vlib.flist(ms), vlib.flist(real[c]), "; ".join(items))
+        cases.append(("compass", term, exp, {"N": n, "configs": [kd for kd, _ in cfgs], "component": c}))
+        ctx.case(key=("compass", n, tuple(kd for kd, _ in cfgs)))
+    return cases
+
+
 def run_corr(ctx, label, cases, header):
     jobs = []
     for c0, ch in chunks(cases, 60):
@@ -435,7 +485,7 @@ def run_corr(ctx, label, cases, header):
 
 
 HEADER = ("From Coq Require Import List ZArith PrimFloat.\nFrom RV Require Import Common.Num Common.FloatNum C02.Model C02.Run "
-          "C16.GravityVar Gen.Derivs C16.Rescale C16.WhInteraction C16.Megno C16.Run.\nImport ListNotations.\nOpen Scope float_scope.\n")
+          "C16.GravityVar Gen.Derivs C16.Rescale C16.WhInteraction C16.Megno C20.Frames C16.ComLoop C16.Run.\nImport ListNotations.\nOpen Scope float_scope.\n")
 
 
 def run(ctx):
@@ -497,13 +547,19 @@ def run(ctx):
     ok4, bad4 = run_corr(ctx, "whloop", wc, HEADER)
     ctx.obligation("correspondence:C16 wh_loop (binary64) == reb_whfast_interaction_step on real and variational Jacobi particles, "
                    "bit-for-bit on %d cases" % len(wc), ok4 and not bad4, "mismatching cases: %s" % [wc[b][3] for b in bad4[:8]])
+    # ---- correspondence 6: move_to_com over several variation sets (per-iteration accumulators)
+    cc = compass_cases(ctx, rebound, ctx.scale(200, 2500))
+    ok6, bad6 = run_corr(ctx, "compass", cc, HEADER)
+    ctx.obligation("correspondence:C16 var1_pass (binary64) == reb_simulation_move_to_com on 2-4 variational configurations in every "
+                   "order (mass variations, test-particle and second-order sets in between), bit-for-bit on %d cases" % len(cc),
+                   ok6 and not bad6, "mismatching cases: %s" % [cc[b][3] for b in bad6[:6]])
     # ---- correspondence 5: MEGNO bookkeeping
     mc = megno_cases(ctx, rebound, ctx.scale(120, 1500))
     ok5, bad5 = run_corr(ctx, "megno", mc, HEADER)
     ctx.obligation("correspondence:C16 deltad_delta / megno_update / megno / lyapunov (binary64) == reb_tools_megno_* and "
                    "reb_simulation_megno/lyapunov, bit-for-bit on %d cases" % len(mc), ok5 and not bad5,
                    "mismatching cases: %s" % [mc[b][3] for b in bad5[:8]])
-    ctx.traces = (len(gc) if ok1 else 0) + (len(dc) if ok2 else 0) + (len(rc) if ok3 else 0) + (len(wc) if ok4 else 0) + (len(mc) if ok5 else 0)
+    ctx.traces = (len(gc) if ok1 else 0) + (len(dc) if ok2 else 0) + (len(rc) if ok3 else 0) + (len(wc) if ok4 else 0) + (len(mc) if ok5 else 0) + (len(cc) if ok6 else 0)
 
     # ---- searcher
     c16_search.search(ctx, rebound, libdir)
